@@ -106,6 +106,12 @@ class SCtx:
             self.violation(rule, construct, fails, witness)
         return bool(cond)
 
+    def vcheck(self, cond, und, *a, **k):
+        """check decided by a valuation walk: a failure that may stem from an undecided guard is not a positive finding -> abstain"""
+        if not cond and und:
+            raise Abstain("a guard on the way is not decided by the valuation")
+        return self.check(cond, *a, **k)
+
     def need(self, thing, what):
         if thing is None or thing == [] or thing is False or thing == set():
             raise Abstain("not found: " + what)
@@ -133,7 +139,11 @@ def structural(ctx, name: str, fn: Callable[[SCtx], None], covered_by: str) -> b
     s = SCtx(ctx)
     try:
         fn(s)
-    except (Abstain, AnalysisError) as e:
+    except Abstain as e:
+        s.commit()      # the verdicts delivered before the unrecognised shape stand; the remaining rules of the group abstain
+        ctx.note(f"{name}: shape not recognised ({str(e)[:120]}), remaining clauses of the group left to {covered_by}")
+        return False
+    except AnalysisError as e:
         ctx.note(f"{name}: shape not recognised ({str(e)[:120]}), clause left to {covered_by}")
         return False
     except (AttributeError, IndexError, KeyError, StopIteration, TypeError, ValueError) as e:
@@ -147,3 +157,1083 @@ def class_methods(sctx: SCtx, rel: str, cls_name: str) -> Dict[str, ast.AST]:
     """name -> inlined view of every method of the class."""
     cls = sctx.cls(rel, cls_name)
     return {n: sctx.func(rel, f"{cls_name}.{n}") for n in methods(cls)}
+
+
+# =====================================================================================================================
+# C21
+# =====================================================================================================================
+from sa.effects import class_accesses  # noqa: E402
+from sa.props._lib_e import (Unknown, assigns_self, call_in, calls_named, is_const, make_env, no_exc, ordered, resolve_local, self_attr, walk)  # noqa: E402
+
+HTTP = "web/http.py"
+Q = "twisted.web.http."
+
+
+def _hit(vis, nodes):
+    return any(n in vis for n in nodes)
+
+
+def _is_inlined_helper(name: str, callers: Dict[str, list]) -> bool:
+    return name.startswith("_") and not name.startswith("__") and name not in ANCHORS_E and bool(callers.get(name))
+
+
+def _class_callers(cls: ast.ClassDef) -> Dict[str, list]:
+    ms = methods(cls)
+    out: Dict[str, list] = {n: [] for n in ms}
+    for n, m in ms.items():
+        for c in ast.walk(m):
+            if isinstance(c, ast.Call) and isinstance(c.func, ast.Attribute) and self_attr(c.func) and c.func.attr in ms and c.func.attr != n:
+                out[c.func.attr].append(n)
+    return out
+
+
+def c21_channel(s: SCtx, I) -> None:
+    QC = Q + "HTTPChannel."
+    cls = s.cls(HTTP, "HTTPChannel")
+    ms = methods(cls)
+    callers = _class_callers(cls)
+    roots = [n for n in ms if not _is_inlined_helper(n, callers)]
+    views = {n: s.func(HTTP, "HTTPChannel." + n) for n in roots}
+    # ---- hand-over: busy flag and raw mode precede the application call-out (dominance on the inlined view)
+    hand = [(n, f) for n, f in views.items() if any(isinstance(c, ast.Call) and call_attr(c) == "requestReceived" for c in ast.walk(f))]
+    s.need(hand, "method that hands the request to the application (.requestReceived call-out)")
+    for n, f in hand:
+        g = s.cfg(f)
+        out = calls_named(g, ".requestReceived")
+        busy = assigns_self(g, "_handlingRequest", lambda v: is_const(v, True))
+        raw = calls_named(g, "self.setRawMode")
+        s.need(busy and raw, "busy flag assignment and setRawMode() in the hand-over method")
+        w = ordered(g, busy, out)
+        s.check(w is None, "typestate/busy-before-hand-over", QC + n + " | self._handlingRequest = True",
+                "a path reaches the application call-out without the busy flag set: pipelined bytes are parsed while the application still works", witness=g.describe(w))
+        w = ordered(g, raw, out)
+        s.check(w is None, "typestate/raw-mode-before-hand-over", QC + n + " | self.setRawMode()",
+                "a path reaches the application call-out in line mode: the next pipelined request line is parsed while this one is being handled", witness=g.describe(w))
+    # ---- who may write the busy flag (closed over helpers by inlining; no function-name list)
+    n_writes = 0
+    for n, f in views.items():
+        g = s.cfg(f)
+        for w in assigns_self(g, "_handlingRequest"):
+            n_writes += 1
+            v = g.node(w).ast.value
+            cons = s.construct(QC + n, g.node(w).ast)
+            if is_const(v, True):
+                out = calls_named(g, ".requestReceived")
+                s.check(bool(out) and g.path([w], out, edge_ok=no_exc) is not None, "typestate/who-may-write-busy-flag", cons,
+                        "the busy flag is set in a place that does not go on to hand a request to the application (nobody will clear it: the connection stalls)")
+            elif is_const(v, False):
+                replay = calls_named(g, "self.setLineMode")
+                s.check(n == "__init__" or (bool(replay) and g.path([w], replay, edge_ok=no_exc) is not None), "typestate/who-may-write-busy-flag", cons,
+                        "the busy flag is cleared in a place that does not go on to replay the buffered bytes (a second request is parsed while one is being handled)")
+            else:
+                raise Abstain("busy flag assigned a non-literal")
+    s.floor("typestate/who-may-write-busy-flag", n_writes, 3)
+    # ---- rawDataReceived: while busy only buffer, while idle only decode (every valuation of the flag)
+    f = views.get("rawDataReceived") or s.need(None, "rawDataReceived")
+    g = s.cfg(f)
+    p = f.args.args[1].arg
+    dec = calls_named(g, "self._transferDecoder.dataReceived")
+    buf = [n for n in calls_named(g, "self._dataBuffer.append") if src(call_in(g.node(n).ast, "self._dataBuffer.append").args[0]) == p]
+    own = calls_named(g, "self._respondToBadRequestAndDisconnect", "self.transport.write", "self.transport.writeSequence", "self._send100Continue", "self.loseConnection",
+                      "self.transport.loseConnection", "self.transport.abortConnection")
+    s.need(dec and buf, "decoder call and buffer append in rawDataReceived")
+    for flag in (True, False):
+        U = []
+        vis = walk(g, I, make_env({"self._handlingRequest": flag}), undecided=U)
+        U = [u for u in U if "_handlingRequest" in src(g.node(u).ast)]
+        if flag:
+            s.vcheck(_hit(vis, buf) and not _hit(vis, dec), U, "valuation/buffer-while-busy", QC + "rawDataReceived | _handlingRequest=True",
+                    "while a request is being handled, received bytes reach the body decoder of a request that is already complete / are not buffered")
+            bad = [n for n in own if n in vis]
+            s.vcheck(not bad, U, "valuation/no-channel-bytes-while-busy", QC + "rawDataReceived | _handlingRequest=True",
+                    "while a response is in progress the channel itself writes to / closes the transport: " + (src(g.node(bad[0]).ast)[:60] if bad else ""),
+                    witness=g.describe(g.path([g.entry], bad)) if bad else "")
+        else:
+            s.vcheck(_hit(vis, dec) and not _hit(vis, buf), U, "valuation/buffer-while-busy", QC + "rawDataReceived | _handlingRequest=False",
+                    "while no request is being handled, received body bytes are buffered instead of decoded")
+    # ---- requestDone: head check, persistence, order flag-clear / detach / replay (partial evaluation of the inlined code)
+    f = views.get("requestDone") or s.need(None, "requestDone")
+    g = s.cfg(f)
+    rp = f.args.args[1].arg
+    replay = calls_named(g, "self.setLineMode")
+    lose = calls_named(g, "self.loseConnection", "self.transport.loseConnection")
+    s.need(replay and lose, "setLineMode replay and loseConnection in requestDone")
+    A, B = object(), object()
+    seen = []
+
+    def on(node, e):
+        if node.id in replay:
+            c = call_in(node.ast, "self.setLineMode")
+            try:
+                val = I.ev(c.args[0], e)
+            except Exception:
+                val = Unknown
+            seen.append((val, e.get("self._dataBuffer", Unknown), e.get("self._handlingRequest", Unknown)))
+    base = {rp: A, "self.requests[0]": A, "self.requests": [A], "self._dataBuffer": [b"ab", b"", b"cd"], "self._handlingRequest": True, "self._waitingForTransport": False,
+            "self._savedTimeOut": None}
+    vis_p = walk(g, I, make_env(dict(base, **{"self.persistent": 1})), on_node=on)
+    vis_n = walk(g, I, make_env(dict(base, **{"self.persistent": 0})))
+    s.check(_hit(vis_p, replay) and not _hit(vis_p, lose), "valuation/persistent-replays", QC + "requestDone | persistent",
+            "on a persistent connection the finished request does not replay the buffered bytes / closes the connection")
+    s.check(_hit(vis_n, lose) and not _hit(vis_n, replay), "valuation/non-persistent-closes", QC + "requestDone | not persistent",
+            "on a non-persistent connection the buffered bytes are replayed as a new request / the connection is not closed")
+    if not seen or any(v is Unknown or b is Unknown or fl is Unknown for v, b, fl in seen):
+        raise Abstain("replay argument / buffer state not determined by partial evaluation")
+    for val, bufnow, flag in seen:
+        s.check(val == b"abcd", "valuation/replay-buffered-bytes", QC + "requestDone | replayed value",
+                f"with [b'ab', b'', b'cd'] buffered the replayed value is {val!r}: pipelined requests are lost or reordered")
+        s.check(list(bufnow) == [], "valuation/buffer-detached-before-replay", QC + "requestDone | buffer at replay",
+                f"when the replay starts the buffer still holds {bufnow!r}: a request finishing inside the replay replays the same bytes again")
+        s.check(flag is False, "valuation/flag-cleared-before-replay", QC + "requestDone | flag at replay",
+                "the buffered bytes are replayed while the channel still claims to be busy: the next request's body is buffered instead of decoded")
+    vis_other = walk(g, I, make_env(dict(base, **{"self.requests[0]": B, "self.requests": [B], "self.persistent": 1})))
+    rem = [n for n in g.ids(lambda x: x.kind == "stmt") if (isinstance(g.node(n).ast, ast.Delete) and "self.requests" in src(g.node(n).ast)) or call_in(g.node(n).ast, "self.requests.pop", "self.requests.popleft", "self.requests.remove")]
+    s.need(rem, "removal of the finished request from self.requests")
+    s.check(_hit(vis_p, rem) and not _hit(vis_other, rem) and not _hit(vis_other, replay), "valuation/only-head-may-finish", QC + "requestDone | head check",
+            "requestDone() for a request that is not the head of the queue removes a request / replays buffered bytes")
+    res = calls_named(g, "self._networkProducer.resumeProducing")
+    s.need(res, "resumeProducing in requestDone")
+    s.check(_hit(vis_p, res), "valuation/wake-up", QC + "requestDone | resume network producer", "the network producer paused while the request was handled is not resumed")
+
+
+def c21_request(s: SCtx, I) -> None:
+    QR = Q + "Request."
+    mod = s.mod(HTTP)
+    cls = s.cls(HTTP, "Request")
+    callers = _class_callers(cls)
+    ms = methods(cls)
+    roots = [n for n in ms if not _is_inlined_helper(n, callers)]
+    views = {n: s.func(HTTP, "Request." + n) for n in roots}
+    # who may write the list: only 'append a fresh Deferred' and 'reset to empty' (name-free)
+    acc = class_accesses(mod, cls, {"notifications"})
+    s.floor("notify/who-may-write", len(acc), 3)
+    for a in acc:
+        ok = a.kind in ("rebind-empty", "clear")
+        if a.kind == "append":
+            f = s.raw_func(HTTP, a.func)
+            arg = a.node.args[0] if a.node.args else None
+            ok = arg is not None and all(isinstance(v, ast.Call) and call_name(v) == "Deferred" for v in resolve_local(f, arg))
+        elif a.kind == "assign":
+            v = a.node.value
+            ok = isinstance(v, (ast.Tuple,)) or isinstance(v, ast.List) and not v.elts or (isinstance(v, ast.Tuple) and all(isinstance(e, ast.List) and not e.elts or True for e in v.elts))
+        s.check(ok, "notify/who-may-write", s.construct(Q + a.func, a.node), f"Request.notifications is mutated by {a.kind}: only appending a fresh Deferred and resetting to empty keep 'fired exactly once'")
+    # _cleanup is reached only under 'not finished and not disconnected', after finished was set (every call site, inlined views)
+    n_sites = 0
+    for n, f in views.items():
+        g = s.cfg(f)
+        cl = calls_named(g, "self._cleanup")
+        if not cl:
+            continue
+        n_sites += len(cl)
+        fin = assigns_self(g, "finished", lambda v: isinstance(v, ast.Constant) and bool(v.value))
+        w = ordered(g, fin, cl)
+        s.check(bool(fin) and w is None, "notify/finished-before-cleanup", QR + n + " | self._cleanup()",
+                "finished is not set before _cleanup() runs: a notifyFinish callback calling finish() again runs _cleanup twice", witness=g.describe(w))
+        for finv, disc in ((0, False), (1, False), (0, True), (1, True)):
+            vis = walk(g, I, make_env({"self.finished": finv, "self._disconnected": disc, "self.queued": False, "self.startedWriting": 1, "self.chunked": 0}))
+            want = not finv and not disc
+            s.check(_hit(vis, cl) == want, "valuation/cleanup-once", f"{QR}{n} | finished={finv} disconnected={disc}",
+                    "finish() does not reach _cleanup" if want else "an already finished / disconnected request reaches _cleanup: notifyFinish fires twice")
+    s.floor("valuation/cleanup-once", n_sites, 1)
+    # the two firing sites: loop over the list calling callback(None) / errback(reason), list reset on every path
+    for meth, fire in (("_cleanup", "callback"), ("connectionLost", "errback")):
+        f = views.get(meth) or s.need(None, meth)
+        g = s.cfg(f)
+        loops = [n for n in g.ids(lambda x: x.kind == "for") if any("self.notifications" in src(v) for v in resolve_local(f, g.node(n).ast.iter))]
+        s.need(loops, f"loop over self.notifications in {meth}")
+        resets = [n for n in g.ids(lambda x: x.kind == "stmt") if (isinstance(g.node(n).ast, (ast.Assign, ast.AnnAssign)) and any(self_attr(t, "notifications") for t in assigned_targets(g.node(n).ast)))
+                  or call_in(g.node(n).ast, "self.notifications.clear")]
+        for n in loops:
+            fo = g.node(n).ast
+            calls = [c for c in ast.walk(fo) if isinstance(c, ast.Call) and isinstance(c.func, ast.Attribute) and isinstance(c.func.value, ast.Name)
+                     and isinstance(fo.target, ast.Name) and c.func.value.id == fo.target.id]
+            s.need(len(calls) == 1 and call_attr(calls[0]) in ("callback", "errback"), f"direct {fire}() call on the loop variable in {meth}")
+            okf = call_attr(calls[0]) == fire and len(calls[0].args) == 1 and (
+                (meth == "_cleanup" and isinstance(calls[0].args[0], ast.Constant) and calls[0].args[0].value is None) or
+                (meth == "connectionLost" and src(calls[0].args[0]) == f.args.args[1].arg))
+            s.check(okf, "notify/fired-with", s.construct(QR + meth, calls[0]), f"the notifyFinish Deferreds are not fired with {'None via callback' if meth == '_cleanup' else 'the reason via errback'}")
+            direct = src(fo.iter) == "self.notifications"
+            w = g.must_pass([n], resets, exc=False) if direct else ordered(g, resets, [n])
+            s.check(bool(resets) and w is None, "notify/list-reset", f"{QR}{meth} | reset of self.notifications",
+                    f"the fired Deferreds stay in self.notifications after {meth}: a later connectionLost/_cleanup fires them a second time", witness=g.describe(w))
+    f = views["connectionLost"]
+    g = s.cfg(f)
+    marks = assigns_self(g, "_disconnected", lambda v: is_const(v, True))
+    loops = g.ids(lambda x: x.kind == "for")
+    s.need(marks, "_disconnected = True in connectionLost")
+    w = ordered(g, marks, loops)
+    s.check(w is None, "notify/disconnected-before-errback", QR + "connectionLost | self._disconnected = True",
+            "the request is not marked disconnected before the errbacks run: an errback calling finish() reaches _cleanup", witness=g.describe(w))
+
+
+EFFECTS = ("self.transport.write", "self.transport.writeSequence", "self.transport.loseConnection", "self.transport.abortConnection")
+REQUEST_API = {"writeHeaders": "Request.write emits its own header block through it", "write": "Request.write / finish emit the body through it",
+               "writeSequence": "Request.write emits chunks through it", "loseConnection": "Request.loseConnection passes through"}
+SAFE_ROOTS = {"lineReceived": "line mode is left before the hand-over (raw-mode-before-hand-over) and re-entered only after the busy flag is cleared (flag-cleared-before-replay)",
+              "requestDone": "invoked by the head-of-line request when its response is complete",
+              "timeoutConnection": "the idle timeout is disabled while a request is handled (idle-timeout-disabled-while-handling)",
+              "forceAbortClient": "scheduled only by timeoutConnection"}
+
+
+
+def c21_transport_effects(s: SCtx, I) -> None:
+    ctx = s
+    QC = Q + 'HTTPChannel.'
+    """Responses are not interleaved: while a request is being handled the channel itself neither writes to the
+    transport nor closes it.  Every HTTPChannel method that can reach transport.write/writeSequence/loseConnection/
+    abortConnection through the intra-class call graph is classified: the write API used by the head-of-line Request;
+    methods that run only in a context where no request is in progress (derived: all their call sites lie in such a
+    method or are dominated by 'not self._handlingRequest'); everything else (externally driven entry points such as
+    rawDataReceived) must have each effect site dominated by 'not self._handlingRequest'."""
+    cls = ctx.cls(HTTP, "HTTPChannel")
+    ms = methods(cls)
+    cfgs = {n: ctx.cfg(m) for n, m in ms.items()}
+    direct, calls = {}, {}
+    for n, g in cfgs.items():
+        direct[n] = calls_named(g, *EFFECTS)
+        calls[n] = []
+        for node in g.ids(lambda x: x.kind in ("stmt", "test", "for", "with")):
+            for c in walk_local(g.node(node).ast):
+                if isinstance(c, ast.Call) and isinstance(c.func, ast.Attribute) and self_attr(c.func) and c.func.attr in ms:
+                    calls[n].append((c.func.attr, node))
+    W = {n for n in ms if direct[n]}
+    changed = True
+    while changed:
+        changed = False
+        for n in ms:
+            if n not in W and any(c in W for c, _ in calls[n]):
+                W.add(n)
+                changed = True
+    ctx.check(all(a in W for a in REQUEST_API), "callgraph/write-api", QC + "writeHeaders/write/writeSequence/loseConnection",
+              "the write API used by Request no longer reaches the transport")
+    busy_vis = {n: walk(cfgs[n], I, make_env({"self._handlingRequest": True})) for n in W}
+
+    def site_guarded(m, node):
+        return node not in busy_vis[m]
+    callers = {n: [(m, node) for m in ms for c, node in calls[m] if c == n] for n in ms}
+    safe = {n for n in SAFE_ROOTS if n in ms}
+    changed = True
+    while changed:
+        changed = False
+        for n in W - safe - set(REQUEST_API):
+            cs = callers[n]
+            if cs and all(m in safe or (m in W and site_guarded(m, node)) for m, node in cs):
+                safe.add(n)
+                changed = True
+    for n in sorted(W - set(REQUEST_API)):
+        q = QC + n
+        if n in safe:
+            ctx.ok("callgraph/no-channel-bytes-during-response", q,
+                   SAFE_ROOTS.get(n) or ("reached only from " + ", ".join(sorted({m for m, _ in callers[n]})) + " in a context where no request is being handled"))
+            continue
+        if callers[n]:
+            continue  # not an entry point: the unjustified call site is reported in its (entry-point) caller
+        g = cfgs[n]
+        sites = list(direct[n]) + [node for c, node in calls[n] if c in W]
+        for node in sorted(set(sites)):
+            ctx.check(site_guarded(n, node), "callgraph/no-channel-bytes-during-response", ctx.construct(q, g.node(node).ast),
+                      f"{n} can run while a request is being handled and reaches the transport (write / close) without being dominated by 'not self._handlingRequest': "
+                      "bytes that do not belong to the head-of-line response (e.g. a 400 for pipelined input not parsed yet) appear in the middle of it, or the "
+                      "connection is closed under the response", witness=g.describe(g.path([g.entry], [node], edge_ok=no_exc)))
+    ctx.floor("callgraph/no-channel-bytes-during-response", len(W - set(REQUEST_API)), 6)
+    # the idle timeout cannot fire while a request is being handled
+    f = ctx.func(HTTP, "HTTPChannel.allContentReceived")
+    g = ctx.cfg(f)
+    out = calls_named(g, ".requestReceived")
+    off = [n for n in calls_named(g, "self.setTimeout") if (lambda c: len(c.args) == 1 and isinstance(c.args[0], ast.Constant) and c.args[0].value is None)(call_in(g.node(n).ast, "self.setTimeout"))]
+    vis = walk(g, I, make_env({"self.timeOut": 60}))
+    late = g.path(out, off, edge_ok=no_exc, strict=True) if off else None
+    ctx.check(bool(off) and _hit(vis, off) and late is None and all(g.path([o], out, edge_ok=no_exc) for o in off), "valuation/idle-timeout-disabled-while-handling",
+              QC + "allContentReceived | self.setTimeout(None)",
+              "the idle timeout stays armed while the application produces the response: timeoutConnection closes the transport in the middle of it")
+
+
+# =====================================================================================================================
+# C19
+# =====================================================================================================================
+from sa.props._lib_e import catches, handlers_of, is_falsy_return, local_values, only_nodes_until_exit, site_label, Unsupported, Raised  # noqa: E402
+
+def _closest_def(g, f, name, at):
+    """Value of the assignment to local ``name`` that dominates node ``at`` and is nearest to it."""
+    defs = [n for n in g.ids(lambda n: n.kind == "stmt" and isinstance(n.ast, ast.Assign)
+                             and any(isinstance(t, ast.Name) and t.id == name for t in assigned_targets(n.ast)))
+            if g.dominates(n, at) and n != at]
+    if not defs:
+        return None
+    best = [d for d in defs if all(g.dominates(o, d) for o in defs)]
+    return g.node(best[0]).ast.value if best else None
+
+
+def c19_framing_decision(s: SCtx, I) -> None:
+    ctx = s
+    QC = Q + 'HTTPChannel.'
+    FAIL, RESPOND, CHOOSE = 'self._failChooseTransferDecoder', 'self._respondToBadRequestAndDisconnect', 'self._maybeChooseTransferDecoder'
+    f = ctx.func(HTTP, "HTTPChannel._maybeChooseTransferDecoder")
+    g = ctx.cfg(f)
+    q = QC + "_maybeChooseTransferDecoder"
+    hp, dp = f.args.args[1].arg, f.args.args[2].arg
+    fail = calls_named(g, FAIL, RESPOND)
+    ident = calls_named(g, "_IdentityTransferDecoder")
+    chunk = calls_named(g, "_ChunkedTransferDecoder")
+    install = assigns_self(g, "_transferDecoder")
+    setlen = assigns_self(g, "length")
+    trues = g.ids(lambda n: n.kind == "stmt" and isinstance(n.ast, ast.Return) and not is_falsy_return(n.ast) and not call_in(n.ast, FAIL))
+    ctx.need(fail and ident and chunk and install and trues, "fail / decoder constructions / installation / return True in _maybeChooseTransferDecoder")
+    ctx.need(setlen, "self.length assignment") and ctx.check(True, "provenance/length-and-decoder-together", q + " | self.length", "self.length is never set when a body decoder is chosen: the request is completed at the end of the headers and its body is parsed as the next request")
+
+    UND = []
+
+    def run(h, d, dec):
+        del UND[:]
+        return walk(g, I, make_env({hp: h, dp: d, "self._transferDecoder": dec}), undecided=UND)
+
+    def hit(vis, nodes):
+        return any(n in vis for n in nodes)
+
+    OBJ = object()
+    cl_values = [b"5", b"0", b"007", b"12345678901234567890", b"", b"+5", b"-5", b" 5", b"5 ", b"0x5", b"5,5", b"5, 5", b"5\x0b", b"\x0c5",
+                 b"1_0", b"\xd9\xa5", b"5.0", b"1e3", b"\xb2", b"5\r", b"5\n", b"a", b"5;q"]
+    for d in cl_values:
+        valid = d != b"" and all(48 <= c <= 57 for c in d)
+        vis = run(b"Content-Length", d, None)
+        if valid:
+            ok = hit(vis, ident) and hit(vis, install) and hit(vis, setlen) and hit(vis, trues) and not hit(vis, fail) and not hit(vis, chunk)
+            why = f"Content-Length: {d!r} (1*DIGIT) does not install the identity decoder"
+        else:
+            ok = hit(vis, fail) and not hit(vis, ident) and not hit(vis, install) and not hit(vis, trues)
+            why = f"Content-Length: {d!r} is not 1*DIGIT but is not rejected with 400 (it reaches int() / a decoder is installed / True is returned)"
+        ctx.vcheck(ok, UND, "decision/content-length-digits", f"{q} | Content-Length: {d!r}", why)
+    te_values = [b"chunked", b"Chunked", b"CHUNKED", b"gzip, chunked", b"chunked, gzip", b"xchunked", b"chunkedx", b" chunked", b"chunked\t",
+                 b"chunked,chunked", b"identity", b"Identity", b"gzip", b"", b"chunked;q=1", b"\x0bchunked", b"identity, chunked", b"deflate"]
+    for d in te_values:
+        vis = run(b"Transfer-Encoding", d, None)
+        low = d.lower()
+        if low == b"chunked":
+            ok = hit(vis, chunk) and hit(vis, install) and hit(vis, setlen) and hit(vis, trues) and not hit(vis, fail) and not hit(vis, ident)
+            why = f"Transfer-Encoding: {d!r} does not install the chunked decoder"
+        elif low == b"identity":
+            ok = hit(vis, trues) and not hit(vis, fail) and not hit(vis, chunk) and not hit(vis, ident) and not hit(vis, install)
+            why = f"Transfer-Encoding: {d!r} must leave the framing unchanged"
+        else:
+            ok = hit(vis, fail) and not hit(vis, chunk) and not hit(vis, install) and not hit(vis, trues)
+            why = f"unsupported transfer coding {d!r} is not rejected with 400 (a decoder is installed or the header is accepted)"
+        ctx.vcheck(ok, UND, "decision/transfer-coding", f"{q} | Transfer-Encoding: {d!r}", why)
+    for h, d in ((b"Content-Length", b"5"), (b"Transfer-Encoding", b"chunked")):
+        vis = run(h, d, OBJ)
+        ok = hit(vis, fail) and not hit(vis, install) and not hit(vis, setlen) and not hit(vis, trues)
+        ctx.vcheck(ok, UND, "decision/conflict-rejected", f"{q} | second framing header {h.decode()}",
+                  f"a request that already has a body decoder (repeated Content-Length, or Content-Length with Transfer-Encoding) is not "
+                  f"rejected when {h.decode()}: {d.decode()} arrives")
+    for h in (b"X", b"Content-Lengthx", b"Content-Type", b"Te", b"Host"):
+        vis = run(h, b"5", None)
+        ok = hit(vis, trues) and not hit(vis, fail) and not hit(vis, install) and not hit(vis, ident) and not hit(vis, chunk)
+        ctx.vcheck(ok, UND, "decision/other-headers-neutral", f"{q} | header {h!r}", f"header {h!r} changes the framing or is rejected")
+
+
+    # coupled installation: length and decoder from the same validated value
+    for n in ident:
+        c = call_in(g.node(n).ast, "_IdentityTransferDecoder")
+        a0 = c.args[0] if c.args else None
+        v = a0
+        if isinstance(a0, ast.Name):
+            v = _closest_def(g, f, a0.id, n)
+        ok = isinstance(v, ast.Call) and call_name(v) == "int" and len(v.args) in (1, 2) and isinstance(v.args[0], ast.Name) and v.args[0].id == dp \
+            and (len(v.args) == 1 or is_const(v.args[1], 10))
+        ctx.check(ok, "provenance/identity-length-is-content-length", ctx.construct(q, c),
+                  "the identity decoder is not created with int(<Content-Length value>)")
+        for s in setlen:
+            sv = g.node(s).ast.value
+            ok = isinstance(a0, ast.Name) and isinstance(sv, ast.Name) and sv.id == a0.id
+            ctx.check(ok, "provenance/length-matches-decoder", ctx.construct(q, g.node(s).ast),
+                      "self.length is not set from the same value the identity decoder counts with")
+    for n in chunk:
+        for s in setlen:
+            sv = g.node(s).ast.value
+            v = _closest_def(g, f, sv.id, n) if isinstance(sv, ast.Name) else sv
+            ctx.check(isinstance(v, ast.Constant) and v.value is None, "provenance/chunked-length-none", ctx.construct(q, g.node(n).ast),
+                      "for chunked coding self.length is not None: lineReceived would treat the request as having a fixed/empty body")
+    for n in ident + chunk:
+        c = call_in(g.node(n).ast, "_IdentityTransferDecoder", "_ChunkedTransferDecoder")
+        args = list(c.args) + [k.value for k in c.keywords]
+        ok = len(args) >= 2 and src(args[-1]) == "self._finishRequestBody" and src(args[-2]).endswith(".handleContentChunk") and \
+            src(args[-2]).startswith("self.requests[-1]")
+        ctx.check(ok, "provenance/decoder-callbacks", ctx.construct(q, c),
+                  "body bytes do not go to the current request's handleContentChunk / the bytes after the body are not given back through _finishRequestBody")
+    for i in install:
+        w1 = ordered(g, setlen, [i])
+        w2 = g.must_pass([i], setlen, exc=False)
+        ctx.check(w1 is None or w2 is None, "provenance/length-and-decoder-together", ctx.construct(q, g.node(i).ast),
+                  "a decoder is installed on a path that does not set self.length (the request would be completed before its body)",
+                  witness=g.describe(w2))
+        v = g.node(i).ast.value
+        src_ok = isinstance(v, ast.Name) and all(isinstance(x, ast.Call) and call_name(x) in ("_IdentityTransferDecoder", "_ChunkedTransferDecoder")
+                                                for x in local_values(f, v.id))
+        ctx.check(src_ok, "provenance/installed-decoder-is-chosen", ctx.construct(q, g.node(i).ast), "the installed decoder is not the one chosen from the header")
+
+    # _failChooseTransferDecoder
+    ff = ctx.func(HTTP, "HTTPChannel._failChooseTransferDecoder")
+    gf = ctx.cfg(ff)
+    qf = QC + "_failChooseTransferDecoder"
+    rs = calls_named(gf, RESPOND)
+    wit = gf.must_pass([gf.entry], rs, exc=False)
+    ctx.check(bool(rs) and wit is None, "mustpass/fail-sends-400", qf, "_failChooseTransferDecoder can return without answering 400", witness=gf.describe(wit))
+    for r in gf.ids(lambda n: n.kind == "stmt" and isinstance(n.ast, ast.Return)):
+        ctx.check(is_falsy_return(gf.node(r).ast) and gf.node(r).ast.value is not None, "mustpass/fail-returns-false", ctx.construct(qf, gf.node(r).ast),
+                  "_failChooseTransferDecoder reports success: the header with invalid framing is accepted")
+
+
+def c19_bad_request_helper(s: SCtx) -> None:
+    ctx = s
+    QC = Q + 'HTTPChannel.'
+    f = ctx.func(HTTP, "HTTPChannel._respondToBadRequestAndDisconnect")
+    g = ctx.cfg(f)
+    q = QC + "_respondToBadRequestAndDisconnect"
+    ws = calls_named(g, "self.transport.write", "self.transport.writeSequence")
+    ctx.need(ws, "transport.write in _respondToBadRequestAndDisconnect")
+    for n in ws:
+        c = call_in(g.node(n).ast, "self.transport.write", "self.transport.writeSequence")
+        a = c.args[0] if c.args else None
+        v = a.value if isinstance(a, ast.Constant) and isinstance(a.value, bytes) else None
+        ok = v is not None and v.startswith(b"HTTP/1.1 400 ") and v.endswith(b"\r\n\r\n") and v.count(b"\r\n") == 2
+        ctx.check(ok, "mustpass/400-status-line", ctx.construct(q, c), "the bad-request response is not exactly a 400 status line followed by an empty line")
+    lose = calls_named(g, "self.loseConnection", "self.transport.loseConnection", "self.transport.abortConnection")
+    wit = g.must_pass([g.entry], lose, exc=False)
+    ctx.check(bool(lose) and wit is None, "mustpass/400-then-close", q, "the 400 is sent but the connection is not closed: following bytes are still parsed",
+              witness=g.describe(wit))
+    wit = ordered(g, ws, lose)
+    ctx.check(wit is None, "mustpass/400-before-close", q, "the connection is closed before the 400 is written", witness=g.describe(wit))
+    f2 = ctx.func(HTTP, "HTTPChannel.loseConnection")
+    g2 = ctx.cfg(f2)
+    tl = calls_named(g2, "self.transport.loseConnection", "self.transport.abortConnection")
+    wit = g2.must_pass([g2.entry], tl, exc=False)
+    ctx.check(bool(tl) and wit is None, "mustpass/channel-close-reaches-transport", QC + "loseConnection",
+              "HTTPChannel.loseConnection can return without closing the transport", witness=g2.describe(wit))
+
+
+RESPOND = "self._respondToBadRequestAndDisconnect"
+
+
+def _channel_views(s: SCtx):
+    cls = s.cls(HTTP, "HTTPChannel")
+    callers = _class_callers(cls)
+    roots = [n for n in methods(cls) if not _is_inlined_helper(n, callers)]
+    return cls, {n: s.func(HTTP, "HTTPChannel." + n) for n in roots}
+
+
+def _allowed_after_reject(node) -> bool:
+    st = node.ast
+    if node.kind in ("join", "test", "for", "handler", "with", "with_exit"):
+        return node.kind in ("join", "test")
+    if isinstance(st, ast.Return):
+        return is_falsy_return(st)
+    if isinstance(st, ast.Pass):
+        return True
+    if isinstance(st, ast.Expr) and isinstance(st.value, ast.Call) and (call_name(st.value) or "").startswith("self._log."):
+        return True
+    if isinstance(st, ast.Expr) and isinstance(st.value, ast.Constant):
+        return True
+    if isinstance(st, (ast.Assign, ast.AnnAssign)) and isinstance(getattr(st, "value", None), ast.Constant):
+        return True
+    return False
+
+
+def c19_reject_discipline(s: SCtx, I) -> None:
+    """must-pass-through: after every 400 site the (inlined) method only returns falsy values - decided by following, from the
+    site, the branches the constants assigned on the way decide; an undecided branch makes the rule abstain for that site."""
+    QC = Q + "HTTPChannel."
+    cls, views = _channel_views(s)
+    n_sites = 0
+    for n, f in views.items():
+        g = s.cfg(f)
+        for site in calls_named(g, RESPOND):
+            n_sites += 1
+            und = []
+            starts = [d for d, l in g.succ[site] if l != "exc"]
+            vis = walk(g, I, {}, starts=starts, undecided=und)
+            cons = f"{QC}{n} | 400 {site_label(g, site)}"
+            if und:
+                s.note(f"reject/stop-after-400: {cons}: a branch after the 400 is not decided by constants, site left to the bounded rules framing/*")
+                continue
+            bad = [v for v in vis if v not in (g.exit, g.raise_exit) and not _allowed_after_reject(g.node(v))]
+            s.check(not bad, "mustpass/stop-after-400", cons,
+                    "after answering 400 the method goes on (state is changed / the request proceeds / a true result is returned): " + (src(g.node(bad[0]).ast)[:70] if bad else ""),
+                    witness=g.describe(g.path(starts, bad, edge_ok=no_exc)) if bad else "")
+    s.floor("mustpass/stop-after-400", n_sites, 3)
+    # the validating methods' boolean results are used
+    ms = methods(cls)
+    validators = set()
+    for _ in range(3):
+        for n, m in ms.items():
+            rets = [r for r in ast.walk(m) if isinstance(r, ast.Return) and r.value is not None]
+            rejects = any(isinstance(c, ast.Call) and (call_name(c) == RESPOND or (isinstance(c.func, ast.Attribute) and self_attr(c.func) and c.func.attr in validators)) for c in ast.walk(m))
+            falsy = any(isinstance(r.value, ast.Constant) and r.value.value is False for r in rets)
+            truthy = any(isinstance(r.value, ast.Constant) and r.value.value is True for r in rets)
+            if rejects and falsy and (truthy or any(isinstance(r.value, ast.Call) for r in rets)):
+                validators.add(n)
+            elif rejects and rets and all(isinstance(r.value, ast.Constant) and r.value.value is False for r in rets):
+                validators.add(n)
+    s.need(validators, "validating methods (400 then return False)")
+    count = 0
+    for n, m in ms.items():
+        for st in ast.walk(m):
+            calls = [c for c in ast.walk(st) if isinstance(c, ast.Call) and isinstance(c.func, ast.Attribute) and self_attr(c.func) and c.func.attr in validators] \
+                if isinstance(st, ast.stmt) and not isinstance(st, (ast.FunctionDef, ast.If, ast.For, ast.While, ast.Try, ast.With)) else []
+            for c in calls:
+                count += 1
+                cons = f"{Q}HTTPChannel | result of {c.func.attr}() at a call site in {n}: {src(st)[:60]}"
+                if isinstance(st, ast.Expr) and st.value is c:
+                    s.violation("mustpass/result-used", f"{Q}HTTPChannel | result of {c.func.attr}() dropped",
+                                f"the boolean result of {c.func.attr}() is dropped in {n}: after the 400 the channel keeps parsing this request (it is handed to the application when the "
+                                "transport keeps delivering, e.g. TLS until close_notify)")
+                else:
+                    s.ok("mustpass/result-used", cons, "result returned / tested / stored")
+        for tst in [x.test for x in ast.walk(m) if isinstance(x, (ast.If, ast.While, ast.IfExp))]:
+            for c in ast.walk(tst):
+                if isinstance(c, ast.Call) and isinstance(c.func, ast.Attribute) and self_attr(c.func) and c.func.attr in validators:
+                    count += 1
+                    s.ok("mustpass/result-used", f"{Q}HTTPChannel | result of {c.func.attr}() tested in {n}", "result tested")
+    s.floor("mustpass/result-used", count, 4)
+    # every delivery to the body decoder converts _MalformedChunkedDataError into a 400
+    n_dec = 0
+    for n, f in views.items():
+        g = s.cfg(f)
+        sites = calls_named(g, RESPOND)
+        for d in calls_named(g, "self._transferDecoder.dataReceived"):
+            n_dec += 1
+            hs = [h for h in handlers_of(g, d) if catches(I, g.node(h).ast, "_MalformedChunkedDataError")]
+            wit = None
+            for h in hs:
+                wit = wit or g.must_pass([h], sites, exc=False)
+            s.check(bool(hs) and wit is None, "mustpass/malformed-chunk-gives-400", s.construct(QC + n, g.node(d).ast),
+                    "malformed chunked data (_MalformedChunkedDataError) raised by the body decoder is not answered with 400", witness=g.describe(wit) if wit else "no handler")
+    s.floor("mustpass/malformed-chunk-gives-400", n_dec, 1)
+
+
+def c19_int_provenance(s: SCtx, I) -> None:
+    """provenance + dominance: every int() applied to header data is dominated by a test that rejects non-digits."""
+    QC = Q + "HTTPChannel."
+    f = s.func(HTTP, "HTTPChannel._maybeChooseTransferDecoder")
+    g = s.cfg(f)
+    dp = f.args.args[2].arg
+    ints = [n for n in g.ids(lambda x: x.kind == "stmt") if any(isinstance(c, ast.Call) and isinstance(c.func, ast.Name) and c.func.id == "int" and c.args and
+                                                                any(isinstance(v, ast.Name) and v.id == dp for v in resolve_local(f, c.args[0])) for c in walk_local(g.node(n).ast))]
+    s.need(ints, "int(<header value>) in _maybeChooseTransferDecoder")
+    for n in ints:
+        ok = True
+        for bad in (b"+5", b"-5", b" 5", b"5 ", b"", b"0x5", b"5_0", b"\xd9\xa5", b"5\n"):
+            vis = walk(g, I, make_env({dp: bad, f.args.args[1].arg: b"Content-Length", "self._transferDecoder": None}))
+            ok = ok and n not in vis
+        s.check(ok, "provenance/content-length-validated-before-int", s.construct(QC + "_maybeChooseTransferDecoder", g.node(n).ast),
+                "int() is reached with a Content-Length value that is not 1*DIGIT (int accepts sign, whitespace, underscores)")
+
+
+def c19_identity_decoder(s: SCtx, ctx) -> None:
+    """finite-exhaustive: dataReceived looks at its argument only through len(data) compared with contentLength and slices at
+    contentLength (checked on the code), so one representative per ordering class (shorter / equal / longer, contentLength 0) is exhaustive."""
+    from sa.props._lib_e_machine import Machine, Opaque, PyRaise, exc_name, ClassV
+    f = s.raw_func(HTTP, "_IdentityTransferDecoder.dataReceived")
+    p = f.args.args[1].arg
+    for t in [x.test for x in ast.walk(f) if isinstance(x, (ast.If, ast.While, ast.IfExp))]:
+        for nm in [x for x in ast.walk(t) if isinstance(x, ast.Name) and x.id == p]:
+            par = getattr(nm, "_parent", None)
+            if not (isinstance(par, ast.Call) and call_name(par) == "len"):
+                raise Abstain("dataReceived tests its argument other than through len()")
+    m = Machine(ctx.tree, budget=50000, allowed={"web/http.py"})
+    cls = m.global_lookup(m.module(HTTP), "_IdentityTransferDecoder")
+    if not isinstance(cls, ClassV):
+        raise Abstain("_IdentityTransferDecoder")
+    bad = None
+    for cl in (0, 1, 3):
+        for pieces in ([b"abc"], [b"ab"], [b"abcde"], [b"a", b"bc"], [b"a", b"bcde"], [b"", b"abc"], [b"abc", b""]):
+            def thunk(mm, cl=cl, pieces=pieces):
+                d = mm.instantiate(cls, [cl, Opaque("dataCallback", True), Opaque("finishCallback", True)], {})
+                err = None
+                for x in pieces:
+                    try:
+                        mm.call(mm.get_attr(d, "dataReceived"), [x])
+                    except PyRaise as e:
+                        err = exc_name(e.exc)
+                        break
+                return err
+            outs = m.explore(thunk, max_paths=2)
+            if len(outs) != 1 or outs[0].kind != "ok":
+                raise Abstain("identity decoder not decidable by interpretation")
+            o = outs[0]
+            data = b"".join(e.args[0] for e in o.events if e.kind == "call" and e.name == "dataCallback")
+            fin = [e.args[0] for e in o.events if e.kind == "call" and e.name == "finishCallback"]
+            stream = b"".join(pieces)
+            # pieces after completion are refused (RuntimeError): compute what the first completing piece leaves
+            total, want_fin, want_data, late = 0, None, b"", False
+            for x in pieces:
+                if want_fin is not None:
+                    late = True
+                    break
+                if total + len(x) >= cl:
+                    want_data += x[:cl - total]
+                    want_fin = x[cl - total:]
+                else:
+                    want_data += x
+                total += len(x)
+            ok = data == want_data and fin == ([want_fin] if want_fin is not None else []) and (o.value == ("RuntimeError" if late else None))
+            if not ok and bad is None:
+                bad = (cl, pieces, data, fin, o.value)
+    s.check(bad is None, "ordering/identity-decoder", Q + "_IdentityTransferDecoder.dataReceived",
+            (f"contentLength={bad[0]} deliveries {bad[1]!r}: body {bad[2]!r}, finishCallback {bad[3]!r}, exception {bad[4]}; the body must be exactly contentLength bytes, finished when the "
+             "last one arrives, the rest handed back once, later deliveries refused") if bad else "",
+            detail="every ordering of len(data) vs remaining contentLength (shorter, equal, longer, zero), one and two deliveries; the method inspects data only via len() (checked)")
+
+
+# =====================================================================================================================
+# C20
+# =====================================================================================================================
+import itertools  # noqa: E402
+
+
+def _abstain_if_undecided(g, und):
+    und = [u for u in und if not any(k in src(g.node(u).ast) for k in ("self._log", "hasattr", ".factory"))]   # logging decisions do not reach a wire sink
+    if und:
+        raise Abstain("a guard is not decided by the valuation: " + src(g.node(und[0]).ast)[:70])
+
+
+def _is_san(x):
+    return isinstance(x, ast.Call) and call_name(x) == "_sanitizeLinearWhitespace"
+
+
+def c20_status_provenance(s: SCtx) -> None:
+    ctx = s
+    QR = Q + 'Request.'
+    HDRS = 'web/http_headers.py'
+    SAN = '_sanitizeLinearWhitespace'
+    f = ctx.func(HTTP, "Request.write")
+    g = ctx.cfg(f)
+    q = QR + "write"
+    wh = calls_named(g, "self.channel.writeHeaders")
+    ctx.need(wh, "self.channel.writeHeaders call in Request.write")
+    cls = ctx.cls(HTTP, "Request")
+    mod = ctx.mod(HTTP)
+    for n in wh:
+        c = call_in(g.node(n).ast, "self.channel.writeHeaders")
+        ctx.need(len(c.args) == 4 and not c.keywords, "writeHeaders(version, code, reason, headers) positional call")
+        av, ac, ar, ah = c.args
+        # reason
+        vals = resolve_local(f, ar)
+        at_sink = bool(vals) and all(_is_san(v) for v in vals)
+        ok = at_sink
+        if not ok and all(self_attr(v, "code_message") for v in vals):
+            ws = [a for a in class_accesses(mod, cls, {"code_message"}) if a.kind == "assign"]
+            ok = bool(ws) and all(_is_san(a.node.value) or "RESPONSES" in src(a.node.value) and not any(
+                isinstance(x, ast.Name) and x.id in [p.arg for p in ctx.raw_func(HTTP, a.func).args.args][2:] for x in ast.walk(a.node.value)) for a in ws)
+        ctx.check(ok, "status/reason-sanitised", ctx.construct(q, c),
+                  "the reason phrase reaches the status line unsanitised: setResponseCode(200, b'OK\\r\\nX-Injected: yes') injects a header / splits the response")
+        # code
+        vals = resolve_local(f, ac)
+        def numeric(v):
+            if isinstance(v, ast.BinOp) and isinstance(v.op, ast.Mod) and isinstance(v.left, ast.Constant) and v.left.value in (b"%d", "%d", b"%i", b"%u"):
+                return True
+            if isinstance(v, ast.Call) and call_name(v) in ("intToBytes", "networkString", "str", "bytes") and "int(" in src(v):
+                return True
+            if isinstance(v, ast.Call) and call_name(v) in ("intToBytes",):
+                return True
+            t = src(v)
+            if not isinstance(v, (ast.Name, ast.Attribute)) and ("str(" in t or "int(" in t or "%d" in t or ":d}" in t):
+                return True
+            return False
+        raw = [v for v in vals if isinstance(v, (ast.Name, ast.Attribute))]
+        if raw or all(numeric(v) for v in vals):
+            ctx.check(not raw, "status/code-numeric", ctx.construct(q, c), "the status code is written as given instead of being formatted as a decimal number")
+        else:
+            ctx.need(False, f"recognised numeric formatting of the status code ({[src(v) for v in vals]})")
+        # version
+        vals = resolve_local(f, av)
+        ctx.check(all(self_attr(v, "clientproto") for v in vals), "status/version-validated", ctx.construct(q, c),
+                  "the response version is not the request's validated clientproto")
+        ctx.check(src(ah) == "self.responseHeaders", "status/headers-object", ctx.construct(q, c), "the headers written are not the Request's Headers object")
+    # clientproto only from the channel's validated request line
+    rr = ctx.func(HTTP, "Request.requestReceived")
+    p3 = rr.args.args[3].arg if len(rr.args.args) >= 4 else None
+    for a in [a for a in class_accesses(mod, cls, {"clientproto"}) if a.kind == "assign"]:
+        v = a.node.value
+        ctx.check(a.func == "Request.requestReceived" and isinstance(v, ast.Name) and v.id == p3, "status/version-validated", ctx.construct(Q + a.func, a.node),
+                  "clientproto is assigned from something other than the version validated by _parseRequestLine")
+    # every header mutation precedes the moment the headers are written
+    muts = calls_named(g, "self.responseHeaders.setRawHeaders", "self.responseHeaders.addRawHeader", "self.responseHeaders.removeHeader")
+    for m in muts:
+        late = g.path(wh, [m], edge_ok=no_exc, strict=True)
+        ctx.check(late is None, "headers/complete-before-written", ctx.construct(q, call_in(g.node(m).ast, ".setRawHeaders", ".addRawHeader", ".removeHeader")),
+                  "a response header is set after the header block was written (it is silently lost)", witness=g.describe(late))
+
+
+def c20_cookies(s: SCtx) -> None:
+    ctx = s
+    QR = Q + 'Request.'
+    HDRS = 'web/http_headers.py'
+    SAN = '_sanitizeLinearWhitespace'
+    f = ctx.func(HTTP, "Request.addCookie")
+    g = ctx.cfg(f)
+    q = QR + "addCookie"
+    apps = calls_named(g, "self.cookies.append")
+    ctx.need(apps, "self.cookies.append in addCookie")
+    cvar = None
+    for n in apps:
+        a = call_in(g.node(n).ast, "self.cookies.append").args[0]
+        cvar = a.id if isinstance(a, ast.Name) else None
+        ctx.need(cvar is not None, "cookie assembled in a local variable by concatenation")
+    count = 0
+    for n in g.ids(lambda n: n.kind == "stmt" and isinstance(n.ast, (ast.Assign, ast.AugAssign))):
+        st = g.node(n).ast
+        tg = assigned_targets(st)
+        if not (len(tg) == 1 and isinstance(tg[0], ast.Name) and tg[0].id == cvar):
+            continue
+        ops = []
+
+        def flat(e):
+            if isinstance(e, ast.BinOp) and isinstance(e.op, ast.Add):
+                flat(e.left)
+                flat(e.right)
+            else:
+                ops.append(e)
+        flat(st.value)
+        for e in ops:
+            count += 1
+            ok = False
+            if isinstance(e, ast.Constant) and isinstance(e.value, bytes):
+                ok = not (set(e.value) & {10, 13})
+            elif isinstance(e, ast.Name) and e.id == cvar:
+                ok = True
+            elif isinstance(e, ast.Call) and call_name(e) == "_sanitize":
+                ok = True
+            elif isinstance(e, ast.Name):
+                for t, lab in g.edge_guards(n):
+                    te = g.node(t).ast
+                    if isinstance(te, ast.Compare) and len(te.ops) == 1 and isinstance(te.left, ast.Name) and te.left.id == e.id and \
+                            isinstance(te.comparators[0], (ast.List, ast.Tuple, ast.Set)) and \
+                            ((isinstance(te.ops[0], ast.NotIn) and lab == "F") or (isinstance(te.ops[0], ast.In) and lab == "T")) and \
+                            all(isinstance(x, ast.Constant) and isinstance(x.value, bytes) and not (set(x.value) & {10, 13, 59}) for x in te.comparators[0].elts):
+                        ok = True
+            if not ok:
+                params_ = {p.arg for p in f.args.args + f.args.kwonlyargs}
+                raw = (isinstance(e, ast.Name) and e.id in params_) or (isinstance(e, ast.Call) and call_name(e) in ("_ensureBytes",) and e.args and isinstance(e.args[0], ast.Name) and e.args[0].id in params_) \
+                    or (isinstance(e, ast.Name) and any(isinstance(v, ast.Call) and "_ensureBytes" in src(v) and "_sanitize" not in src(v) for v in local_values(f, e.id)))
+                if not raw:
+                    raise Abstain("cookie piece of an unrecognised form: " + src(e)[:50])
+            ctx.check(ok, "cookie/pieces-sanitised", f"{q} | {src(st)[:70]} | piece {src(e)[:50]}",
+                      f"cookie piece {src(e)} is neither a literal nor _sanitize()d nor checked against a constant list: CR/LF/';' in it inject a header or a cookie attribute")
+    ctx.floor("cookie/pieces-sanitised", count, 12)
+    mod = ctx.mod(HTTP)
+    for a in class_accesses(mod, ctx.cls(HTTP, "Request"), {"cookies"}):
+        ctx.check((a.func, a.kind) in (("Request.__init__", "rebind-empty"), ("Request.addCookie", "append")), "cookie/who-may-write",
+                  ctx.construct(Q + a.func, a.node), "Request.cookies is mutated outside addCookie")
+
+
+def c20_write_valuations(s: SCtx, I) -> None:
+    ctx = s
+    QR = Q + 'Request.'
+    HDRS = 'web/http_headers.py'
+    SAN = '_sanitizeLinearWhitespace'
+    f = ctx.func(HTTP, "Request.write")
+    g = ctx.cfg(f)
+    q = QR + "write"
+    dp = f.args.args[1].arg
+    consts = I.consts
+    nb = consts.get("NO_BODY_CODES")
+    ctx.check(nb is not None and set(nb) == {204, 304}, "body/no-body-codes", Q + "NO_BODY_CODES", f"NO_BODY_CODES is {nb!r}; 204 and 304 responses must not carry a body")
+    wh = calls_named(g, "self.channel.writeHeaders")
+    setc = assigns_self(g, "chunked", lambda v: isinstance(v, ast.Constant) and bool(v.value))
+    te = [n for n in calls_named(g, "self.responseHeaders.setRawHeaders") if "transfer-encoding" in src(g.node(n).ast).lower()]
+    bchunk = [n for n in calls_named(g, "self.channel.writeSequence", "self.channel.write", "self.transport.writeSequence", "self.transport.write") if call_in(g.node(n).ast, "toChunk")]
+    bplain = [n for n in calls_named(g, "self.channel.write", "self.transport.write") if n not in bchunk]
+    noop = assigns_self(g, "write")
+    ctx.need(wh and setc and te and bchunk and bplain, "writeHeaders / chunked flag / Transfer-Encoding header / body writes in Request.write")
+    for n in te:
+        c = call_in(g.node(n).ast, "self.responseHeaders.setRawHeaders")
+        ok = len(c.args) == 2 and isinstance(c.args[0], ast.Constant) and isinstance(c.args[1], ast.List) and len(c.args[1].elts) == 1 and is_const(c.args[1].elts[0], b"chunked")
+        ctx.check(ok, "body/chunked-header-value", ctx.construct(q, c), "the Transfer-Encoding header announced is not exactly 'chunked'")
+    for n in bchunk:
+        c = call_in(g.node(n).ast, "toChunk")
+        ctx.check(len(c.args) == 1 and src(c.args[0]) == dp, "body/chunk-is-the-data", ctx.construct(q, c), "the chunk written is not the data passed to write()")
+    for n in bplain:
+        c = call_in(g.node(n).ast, "self.channel.write", "self.transport.write")
+        ctx.check(len(c.args) == 1 and src(c.args[0]) == dp, "body/chunk-is-the-data", ctx.construct(q, c), "the bytes written are not the data passed to write()")
+    for n in noop:
+        v = g.node(n).ast.value
+        ok = isinstance(v, ast.Lambda) and not any(isinstance(x, ast.Call) for x in ast.walk(v.body))
+        ctx.check(ok, "body/later-writes-disabled", ctx.construct(q, g.node(n).ast), "the replacement for write() on a body-less response still writes")
+
+    def hit(vis, nodes):
+        return any(n in vis for n in nodes)
+    CLTERM = "self.responseHeaders.getRawHeaders(b'Content-Length')"
+    for ver, cl, meth, code, data in itertools.product((b"HTTP/1.1", b"HTTP/1.0"), (None, [b"5"]), (b"GET", b"HEAD", b"POST"), (200, 204, 304, 404), (b"xyz", b"")):
+        env = make_env({"self.finished": 0, "self._disconnected": False, "self.startedWriting": 0, "self.clientproto": ver, CLTERM: cl,
+                        "self.method": meth, "self.code": code, dp: data, "self.chunked": 0, "self.lastModified": None, "self.etag": None,
+                        "self.cookies": [], "self.sentLength": 0})
+        _und = []
+        vis = walk(g, I, env, undecided=_und)
+        _abstain_if_undecided(g, _und)
+        want_chunked = ver == b"HTTP/1.1" and cl is None and meth != b"HEAD" and code not in (204, 304)
+        nobody = meth == b"HEAD" or code in (204, 304)
+        label = f"{q} | {ver.decode()} CL={'set' if cl else 'none'} {meth.decode()} {code} data={'yes' if data else 'empty'}"
+        ctx.check(hit(vis, wh), "body/headers-on-first-write", label, "the first write does not emit the headers")
+        ctx.check(hit(vis, setc) == want_chunked and hit(vis, te) == want_chunked, "body/chunked-iff", label,
+                  ("chunked coding is not selected although HTTP/1.1, no Content-Length, body allowed" if want_chunked else
+                   "chunked coding is selected although the response has a Content-Length / is HTTP/1.0 / HEAD / 204 / 304 (framing inconsistent with the body)"))
+        if nobody:
+            ctx.check(not hit(vis, bchunk) and not hit(vis, bplain) and hit(vis, noop), "body/none-for-head-204-304", label,
+                      "a HEAD / 204 / 304 response writes body bytes, or later writes are not disabled")
+        elif data:
+            ctx.check(hit(vis, bchunk) == want_chunked and hit(vis, bplain) == (not want_chunked), "body/encoding-matches-framing", label,
+                      "the body bytes are not written in the coding announced by the headers")
+        else:
+            ctx.check(not hit(vis, bchunk) and not hit(vis, bplain), "body/empty-write-not-encoded", label,
+                      "an empty write emits bytes: with chunked coding that is the terminator '0 CRLF CRLF' in the middle of the body")
+    for ch, data in itertools.product((0, 1), (b"xyz", b"")):
+        env = make_env({"self.finished": 0, "self._disconnected": False, "self.startedWriting": 1, dp: data, "self.chunked": ch, "self.sentLength": 0})
+        _und = []
+        vis = walk(g, I, env, undecided=_und)
+        _abstain_if_undecided(g, _und)
+        label = f"{q} | later write chunked={ch} data={'yes' if data else 'empty'}"
+        ctx.check(not hit(vis, wh), "body/headers-once", label, "the header block is written again on a later write")
+        if data:
+            ctx.check(hit(vis, bchunk) == bool(ch) and hit(vis, bplain) == (not ch), "body/encoding-matches-framing", label, "later body bytes are not written in the announced coding")
+        else:
+            ctx.check(not hit(vis, bchunk) and not hit(vis, bplain), "body/empty-write-not-encoded", label, "an empty later write emits bytes (chunked terminator)")
+    for fin, disc in ((1, False), (0, True)):
+        env = make_env({"self.finished": fin, "self._disconnected": disc, "self.startedWriting": 1, dp: b"x", "self.chunked": 1})
+        _und = []
+        vis = walk(g, I, env, undecided=_und)
+        _abstain_if_undecided(g, _und)
+        ctx.check(not hit(vis, bchunk + bplain + wh), "body/no-write-after-finish", f"{q} | finished={fin} disconnected={disc}",
+                  "bytes are written after finish() / after the connection was lost")
+    sw = assigns_self(g, "startedWriting", lambda v: isinstance(v, ast.Constant) and bool(v.value))
+    w = ordered(g, sw, wh)
+    ctx.check(bool(sw) and w is None, "body/headers-once", q + " | startedWriting", "startedWriting is not set before the headers are written", witness=g.describe(w))
+
+
+def c20_finish_valuations(s: SCtx, I) -> None:
+    ctx = s
+    QR = Q + 'Request.'
+    HDRS = 'web/http_headers.py'
+    SAN = '_sanitizeLinearWhitespace'
+    f = ctx.func(HTTP, "Request.finish")
+    g = ctx.cfg(f)
+    q = QR + "finish"
+    force = calls_named(g, "self.write")
+    term = [n for n in calls_named(g, "self.channel.write", "self.transport.write", "self.channel.writeSequence")]
+    ctx.check(bool(term), "finish/terminator", q, "finish() never writes the last-chunk terminator")
+    for n in term:
+        c = call_in(g.node(n).ast, "self.channel.write", "self.transport.write", "self.channel.writeSequence")
+        ctx.check(len(c.args) == 1 and is_const(c.args[0], b"0\r\n\r\n"), "finish/terminator", ctx.construct(q, c), "the chunked terminator is not exactly 0 CRLF CRLF")
+    for n in force:
+        c = call_in(g.node(n).ast, "self.write")
+        ctx.check(len(c.args) == 1 and is_const(c.args[0], b""), "finish/forces-headers", ctx.construct(q, c), "forcing the headers out adds body bytes")
+    ctx.check(bool(force), "finish/forces-headers", q, "finish() on a response that never wrote does not emit the headers")
+
+    def hit(vis, nodes):
+        return any(n in vis for n in nodes)
+    for sw, ch in itertools.product((0, 1), (0, 1)):
+        env = make_env({"self._disconnected": False, "self.finished": 0, "self.startedWriting": sw, "self.chunked": ch, "self.queued": False})
+        _und = []
+        vis = walk(g, I, env, undecided=_und)
+        _abstain_if_undecided(g, _und)
+        label = f"{q} | startedWriting={sw} chunked={ch}"
+        ctx.check(hit(vis, force) == (not sw), "finish/forces-headers", label, "headers are not forced out exactly when nothing was written yet")
+        if sw:
+            ctx.check(hit(vis, term) == bool(ch), "finish/terminator-iff-chunked", label,
+                      "the terminator is written for a non-chunked response / missing for a chunked one")
+    for fin, disc in ((1, False), (0, True)):
+        env = make_env({"self._disconnected": disc, "self.finished": fin, "self.startedWriting": 1, "self.chunked": 1, "self.queued": False})
+        _und = []
+        vis = walk(g, I, env, undecided=_und)
+        _abstain_if_undecided(g, _und)
+        ctx.check(not hit(vis, term + force), "finish/once", f"{q} | finished={fin} disconnected={disc}",
+                  "a second finish() (or finish after connection loss) writes the terminator / headers again")
+    for t in term:
+        back = g.path([t], force, edge_ok=no_exc, strict=True)
+        tests = [x for x in g.ids(lambda n: n.kind == "test") if src(g.node(x).ast) == "self.startedWriting"]
+        w = ordered(g, tests, [t]) if tests else None
+        ctx.check(back is None and bool(tests) and w is None, "finish/headers-before-terminator", ctx.construct(q, g.node(t).ast),
+                  "the terminator can be written before the headers were forced out", witness=g.describe(back or w))
+
+
+def c20_persistence_framing(s: SCtx, I) -> None:
+    ctx = s
+    QR = Q + 'Request.'
+    HDRS = 'web/http_headers.py'
+    SAN = '_sanitizeLinearWhitespace'
+    """Persistence and framing agree: whenever HTTPChannel.checkPersistence keeps the connection open after a response
+    that may carry a body, Request.write makes that response self-delimiting (Content-Length present or chunked); a
+    close-delimited response is allowed only on a connection that is then closed.  Both decisions are taken from the code:
+    checkPersistence is walked under (version, Connection header), Request.write under (version, Content-Length, method, code)."""
+    fc = ctx.func(HTTP, "HTTPChannel.checkPersistence")
+    gc = ctx.cfg(fc)
+    qc = Q + "HTTPChannel.checkPersistence"
+    rq, vp = fc.args.args[1].arg, fc.args.args[2].arg
+    fw = ctx.func(HTTP, "Request.write")
+    gw = ctx.cfg(fw)
+    dp = fw.args.args[1].arg
+    setc = assigns_self(gw, "chunked", lambda v: isinstance(v, ast.Constant) and bool(v.value))
+    ctx.need(setc, "self.chunked = 1 in Request.write")
+    # the value stored in self.persistent is this decision for the version that becomes clientproto
+    fa = ctx.func(HTTP, "HTTPChannel.allHeadersReceived")
+    sets = [st for st in ast.walk(fa) if isinstance(st, ast.Assign) and any(self_attr(t, "persistent") for t in st.targets)]
+    ok = bool(sets) and all(isinstance(st.value, ast.Call) and call_name(st.value) == "self.checkPersistence" and len(st.value.args) == 2 and
+                            src(st.value.args[1]) == "self._version" for st in sets)
+    ctx.check(ok, "persistence/decision-stored", Q + "HTTPChannel.allHeadersReceived", "self.persistent is not checkPersistence(request, self._version)")
+    CLTERM = "self.responseHeaders.getRawHeaders(b'Content-Length')"
+
+    def chunked(ver, cl, meth, code):
+        env = make_env({"self.finished": 0, "self._disconnected": False, "self.startedWriting": 0, "self.clientproto": ver, CLTERM: cl, "self.method": meth,
+                        "self.code": code, dp: b"x", "self.chunked": 0, "self.lastModified": None, "self.etag": None, "self.cookies": [], "self.sentLength": 0})
+        und = []
+        vis = walk(gw, I, env, undecided=und)
+        loose = [u for u in und if gw.path([u], setc, edge_ok=no_exc)]
+        if loose:
+            raise AnalysisError(f"Request.write: the chunked decision depends on a term the evaluator cannot fix: {src(gw.node(loose[0]).ast)[:80]}")
+        return any(n in vis for n in setc)
+
+    for ver in (b"HTTP/1.1", b"HTTP/1.0"):
+        for conn in (None, [b"close"], [b"keep-alive"], [b"Keep-Alive"], [b"keep-alive close"], [b"close keep-alive"], [b"upgrade"], [b"KEEP-ALIVE"]):
+            results = []
+
+            def on(node, e, results=results):
+                if node.kind == "stmt" and isinstance(node.ast, ast.Return) and node.ast.value is not None:
+                    try:
+                        results.append(bool(I.ev(node.ast.value, e)))
+                    except Exception:
+                        results.append(None)
+            walk(gc, I, make_env({vp: ver, f"{rq}.requestHeaders.getRawHeaders(b'Connection')": conn}), on_node=on)
+            label = f"{qc} | {ver.decode()} Connection: {conn[0].decode() if conn else '(absent)'}"
+            if len(set(results)) != 1 or results[0] is None:
+                raise AnalysisError(f"checkPersistence decision not decidable for {label}: {results}")
+            persistent = results[0]
+            bad = None
+            for cl in (None, [b"5"]):
+                for meth in (b"GET", b"HEAD", b"POST"):
+                    for code in (200, 204, 304, 404):
+                        delimited = cl is not None or meth == b"HEAD" or code in (204, 304) or chunked(ver, cl, meth, code)
+                        if persistent and not delimited and bad is None:
+                            bad = (meth, code)
+            ctx.check(bad is None, "persistence/response-self-delimiting", label,
+                      (f"the connection stays open after a {ver.decode()} {bad[0].decode()} {bad[1]} response that has neither Content-Length nor chunked coding: "
+                       "its end is never marked and the next response is read as part of its body") if bad else "",
+                      detail=f"persistent={persistent}; every body-carrying response is Content-Length/chunked delimited or the connection closes")
+            if ver == b"HTTP/1.1" and conn is not None and b"close" in [t.lower() for t in conn[0].split(b" ")]:
+                ctx.check(not persistent, "persistence/close-honoured", label, "an HTTP/1.1 request with 'Connection: close' keeps the connection persistent")
+
+
+def _sanitised_expr(s: SCtx, mod, f, expr, depth=2) -> bool:
+    """expr is a call of _sanitizeLinearWhitespace, or of a module function / method whose every return is one (one level)."""
+    for v in resolve_local(f, expr):
+        if _is_san(v):
+            continue
+        if isinstance(v, ast.Call) and depth > 0:
+            nm = call_name(v) or ""
+            helper = mod.find(nm) if nm and "." not in nm else None
+            if isinstance(helper, ast.FunctionDef):
+                rets = [r for r in ast.walk(helper) if isinstance(r, ast.Return)]
+                if rets and all(r.value is not None and _sanitised_expr(s, mod, helper, r.value, depth - 1) for r in rets):
+                    continue
+        return False
+    return True
+
+
+def c20_headers_store(s: SCtx) -> None:
+    """who-may-write + provenance on Headers._rawHeaders, closed over the class (no function-name list): every store puts a
+    sanitised value under an encoded name; every other mutation only removes."""
+    HDRS = "web/http_headers.py"
+    mod = s.mod(HDRS)
+    cls = s.cls(HDRS, "Headers")
+    qh = "twisted.web.http_headers.Headers."
+    n_store = 0
+    for name, m in methods(cls).items():
+        f = m
+        aliases = {}     # local name -> key expression, for  L = self._rawHeaders.setdefault(K, [])
+        for st in ast.walk(f):
+            if isinstance(st, ast.Assign) and len(st.targets) == 1 and isinstance(st.targets[0], ast.Name) and isinstance(st.value, ast.Call) \
+                    and call_name(st.value) == "self._rawHeaders.setdefault" and st.value.args:
+                aliases[st.targets[0].id] = st.value.args[0]
+        sites = []       # (node, key expr, [value pieces])
+        for st in ast.walk(f):
+            if isinstance(st, ast.Assign):
+                for tg in st.targets:
+                    if isinstance(tg, ast.Subscript) and src(tg.value) == "self._rawHeaders":
+                        val = st.value
+                        pieces = []
+                        for v in resolve_local(f, val):
+                            if isinstance(v, ast.ListComp):
+                                pieces.append(v.elt)
+                            elif isinstance(v, ast.List) and isinstance(val, ast.Name):
+                                pieces.extend(v.elts)
+                                for c in ast.walk(f):
+                                    if isinstance(c, ast.Call) and call_name(c) == val.id + ".append" and c.args:
+                                        pieces.append(c.args[0])
+                                    elif isinstance(c, ast.Call) and (call_name(c) or "").startswith(val.id + ".") and call_attr(c) in ("extend", "insert", "__setitem__"):
+                                        raise Abstain("value list filled by extend/insert")
+                            else:
+                                raise Abstain("stored value list of an unrecognised form: " + src(v)[:50])
+                        sites.append((st, tg.slice, pieces))
+                    elif isinstance(tg, ast.Attribute) and self_attr(tg, "_rawHeaders") and not (isinstance(st.value, ast.Dict) and not st.value.keys):
+                        raise Abstain("_rawHeaders rebound to a non-empty value")
+            elif isinstance(st, ast.Call) and call_attr(st) == "append" and isinstance(st.func, ast.Attribute):
+                recv = st.func.value
+                if isinstance(recv, ast.Call) and call_name(recv) == "self._rawHeaders.setdefault" and recv.args:
+                    sites.append((st, recv.args[0], [st.args[0]] if st.args else []))
+                elif isinstance(recv, ast.Name) and recv.id in aliases:
+                    sites.append((st, aliases[recv.id], [st.args[0]] if st.args else []))
+            elif isinstance(st, ast.Call) and (call_name(st) or "").startswith("self._rawHeaders.") and call_attr(st) in ("update", "__setitem__"):
+                raise Abstain("_rawHeaders.update")
+        params = [p.arg for p in f.args.args]
+        for node, key, pieces in sites:
+            n_store += 1
+            cons = s.construct(qh + name, node)
+            kvals = resolve_local(f, key)
+            okk = bool(kvals) and all(isinstance(k, ast.Call) and call_name(k) == "_nameEncoder.encode" and len(k.args) == 1 and isinstance(k.args[0], ast.Name) and k.args[0].id in params for k in kvals)
+            s.check(okk, "provenance/header-name-encoded", cons, "a header is stored under a name that did not pass _nameEncoder.encode (token check)")
+            okv = bool(pieces) and all(_sanitised_expr(s, mod, f, p) for p in pieces)
+            s.check(okv, "provenance/header-value-sanitised", cons,
+                    "a header value is stored without _sanitizeLinearWhitespace: CR/LF in the value reach the wire (header injection / response splitting)")
+    s.floor("provenance/header-value-sanitised", n_store, 2)
+    outside = [n for n in ast.walk(s.mod(HTTP).tree) if isinstance(n, ast.Attribute) and n.attr == "_rawHeaders"]
+    s.check(not outside, "provenance/header-store-private", "twisted.web.http | ._rawHeaders", "web/http.py reaches into Headers._rawHeaders directly")
+
+
+def c20_foreign_headers(s: SCtx) -> None:
+    """provenance at the wire sink: the object whose getAllRawHeaders() feeds the header block is the parameter only where
+    isinstance(param, Headers) holds, otherwise a fresh Headers() filled through addRawHeader/setRawHeaders."""
+    f = s.func(HTTP, "HTTPChannel.writeHeaders")
+    g = s.cfg(f)
+    q = Q + "HTTPChannel.writeHeaders"
+    ph = f.args.args[4].arg
+    uses = [n for n in g.ids(lambda x: x.kind in ("stmt", "for")) if any(isinstance(c, ast.Call) and call_attr(c) == "getAllRawHeaders" for c in ast.walk(g.node(n).ast.iter if g.node(n).kind == "for" else g.node(n).ast))]
+    s.need(uses, "getAllRawHeaders() use in writeHeaders")
+    tests = [t for t in g.ids(lambda x: x.kind == "test") if src(g.node(t).ast) == f"isinstance({ph}, Headers)"]
+    if not tests:
+        raise Abstain("no isinstance(headers, Headers) test")
+    for u in uses:
+        node = g.node(u)
+        call = next(c for c in ast.walk(node.ast.iter if node.kind == "for" else node.ast) if isinstance(c, ast.Call) and call_attr(c) == "getAllRawHeaders")
+        recv = call.func.value
+        if not isinstance(recv, ast.Name):
+            raise Abstain("receiver of getAllRawHeaders is not a local name")
+        defs = [n for n in g.ids(lambda x: x.kind == "stmt" and isinstance(x.ast, ast.Assign) and any(isinstance(t, ast.Name) and t.id == recv.id for t in x.ast.targets))]
+        ok = True
+        wit = None
+        for d in defs:
+            v = g.node(d).ast.value
+            vals = resolve_local(f, v) if not (isinstance(v, ast.Name) and v.id == ph) else [v]
+            for x in vals:
+                if isinstance(x, ast.Name) and x.id == ph:
+                    ok = ok and g.guarded(d, lambda e: src(e) == f"isinstance({ph}, Headers)", True)
+                elif isinstance(x, ast.Call) and call_name(x) == "Headers" and not x.args:
+                    fills = [c for c in ast.walk(f) if isinstance(c, ast.Call) and isinstance(c.func, ast.Attribute) and isinstance(c.func.value, ast.Name)
+                             and c.func.value.id in {t.id for t in g.node(d).ast.targets if isinstance(t, ast.Name)} | ({v.id} if isinstance(v, ast.Name) else set())
+                             and call_attr(c) not in ("getAllRawHeaders",)]
+                    ok = ok and all(call_attr(c) in ("addRawHeader", "setRawHeaders") for c in fills)
+                else:
+                    raise Abstain("unrecognised source of the headers object: " + src(x)[:50])
+        if recv.id == ph:
+            # the parameter itself reaches the use on paths that avoid every rebinding: those paths must have passed isinstance -> True
+            wit = g.path([g.entry], [u], avoid=defs, edge_ok=lambda a, b, l: l != "exc" and not (a in tests and l == "F"))
+            wit = g.path([g.entry], [u], avoid=set(defs), edge_ok=lambda a, b, l: l != "exc" and not (a in tests and l == "T"))
+            ok = ok and wit is None
+        s.check(ok, "provenance/foreign-iterable-rebuilt", s.construct(q, call),
+                "header pairs given as a plain iterable reach the wire without being rebuilt through Headers.addRawHeader (no name check, no CR/LF removal)", witness=g.describe(wit))
